@@ -523,6 +523,9 @@ def run(chk):
         eps, _ = summ.pieces(v, ez, hooks=inl())
         res, alpha, key = [p["n"] for p in ez.params]
         K = sym.arrow(P(key, "params"), "k")
+        # (the sample's own copy of k -- `TLweSample::k`, set by its constructor from the parameter object -- is the key's k)
+        eps = [dict(p_, loops=[dict(l_, lo=sym.subst(l_["lo"], {P(res, "k"): K}), hi=sym.subst(l_["hi"], {P(res, "k"): K})) if "var" in l_ else l_
+                               for l_ in p_["loops"]]) for p_ in eps]
         Nn = sym.arrow(P(key, "params"), "N")
         problems = []
         mul = calls(eps, addname)
